@@ -239,7 +239,8 @@ def value_set(prog: Program, fn: Fn, expr, depth=0) -> Optional[Set[str]]:
             if expr.id in f.params:
                 return param_value_sets(prog, f, expr.id, depth + 1)
             f = f.outer
-        return loop_bound_values(fn, expr.id)
+        got = loop_bound_values(fn, expr.id)
+        return got if got is not None else assigned_values(prog, fn, expr.id, depth + 1)
     if isinstance(expr, ast.JoinedStr):
         parts: List[Set[str]] = []
         for p in expr.values:
@@ -260,13 +261,136 @@ def value_set(prog: Program, fn: Fn, expr, depth=0) -> Optional[Set[str]]:
             if len(res) > 500:
                 return None
         return res
+    # "INVALID_{}_INT".format(name) / "INVALID_%s_INT" % name / "A" + name: templates over value sets
+    if isinstance(expr, ast.Call) and isinstance(expr.func, ast.Attribute) and expr.func.attr == "format" \
+            and isinstance(expr.func.value, ast.Constant) and isinstance(expr.func.value.value, str) \
+            and not any(isinstance(a, ast.Starred) for a in expr.args) and all(k.arg for k in expr.keywords):
+        import itertools
+        pos_sets = [value_set(prog, fn, a, depth + 1) or guard_value_set(prog, fn, a, expr) for a in expr.args]
+        kw_sets = {k.arg: (value_set(prog, fn, k.value, depth + 1) or guard_value_set(prog, fn, k.value, expr)) for k in expr.keywords}
+        if any(x is None for x in pos_sets) or any(x is None for x in kw_sets.values()):
+            return None
+        out_: Set[str] = set()
+        names = sorted(kw_sets)
+        for combo in itertools.product(*pos_sets, *[kw_sets[n] for n in names]):
+            try:
+                out_.add(expr.func.value.value.format(*combo[:len(pos_sets)], **dict(zip(names, combo[len(pos_sets):]))))
+            except (IndexError, KeyError, ValueError):
+                return None
+            if len(out_) > 500:
+                return None
+        return out_ or None
+    if isinstance(expr, ast.BinOp) and isinstance(expr.op, (ast.Mod, ast.Add)):
+        l = value_set(prog, fn, expr.left, depth + 1)
+        if l is not None:
+            if isinstance(expr.op, ast.Add):
+                r = value_set(prog, fn, expr.right, depth + 1)
+                if r is not None and len(l) * len(r) <= 500:
+                    return {a + b for a in l for b in r}
+                return None
+            rights = expr.right.elts if isinstance(expr.right, ast.Tuple) else [expr.right]
+            rsets = [value_set(prog, fn, a, depth + 1) or guard_value_set(prog, fn, a, expr) for a in rights]
+            if all(x is not None for x in rsets):
+                import itertools
+                out2: Set[str] = set()
+                for tmpl in l:
+                    for combo in itertools.product(*rsets):
+                        try:
+                            out2.add(tmpl % (combo if isinstance(expr.right, ast.Tuple) else combo[0]))
+                        except (TypeError, ValueError):
+                            return None
+                return out2 or None
+        return None
     if isinstance(expr, ast.IfExp):
-        a = value_set(prog, fn, expr.body, depth + 1)
-        b = value_set(prog, fn, expr.orelse, depth + 1)
-        if a is None or b is None:
+        is_none = lambda e: isinstance(e, ast.Constant) and e.value is None        # noqa: E731  (`"CODE" if c else None`)
+        a = set() if is_none(expr.body) else value_set(prog, fn, expr.body, depth + 1)
+        b = set() if is_none(expr.orelse) else value_set(prog, fn, expr.orelse, depth + 1)
+        if a is None or b is None or not (a | b):
             return None
         return a | b
+    if isinstance(expr, ast.BoolOp):
+        # `CODES.get(kind) or "DEFAULT"`: any operand may be the value
+        out: Set[str] = set()
+        for v_ in expr.values:
+            x = value_set(prog, fn, v_, depth + 1)
+            if x is None:
+                return None
+            out |= x
+        return out
+    # TABLE[key] / TABLE.get(key[, default]) over a folded table of strings: any of its values
+    table = default_ = None
+    if isinstance(expr, ast.Subscript) and not isinstance(expr.slice, ast.Slice):
+        table = fold_in_fn(expr.value, fn, default=None)
+    elif isinstance(expr, ast.Call) and isinstance(expr.func, ast.Attribute) and expr.func.attr == "get" and 1 <= len(expr.args) <= 2:
+        table = fold_in_fn(expr.func.value, fn, default=None)
+        table = table if isinstance(table, dict) else None
+        if table is not None and len(expr.args) == 2:
+            default_ = value_set(prog, fn, expr.args[1], depth + 1)
+            if default_ is None and not (isinstance(expr.args[1], ast.Constant) and expr.args[1].value is None):
+                return None
+    if isinstance(table, dict):
+        vals = list(table.values())
+    elif isinstance(table, (tuple, list)):
+        vals = list(table)
+    else:
+        vals = None
+    if vals and all(isinstance(x, str) for x in vals):
+        return set(vals) | (default_ or set())
     return None
+
+
+def assigned_values(prog: Program, fn: Fn, name: str, depth=0) -> Optional[Set[str]]:
+    """Strings a local can hold when every binding of it in the function is a plain ``name = <expr>`` whose value set is
+    known (``code = "A" if c else "B"``; ``code = "A"`` ... ``code = "B"`` on another branch).  None when the name is bound
+    in any other way (loop target, augmented assignment, unpacking ...)."""
+    vals: Set[str] = set()
+    found = False
+    for n in walk_fn(fn.node):
+        if isinstance(n, ast.Assign):
+            for t in n.targets:
+                if isinstance(t, ast.Name) and t.id == name:
+                    if isinstance(n.value, ast.Constant) and n.value.value is None:
+                        continue                         # `code = None` placeholder: not a code
+                    v = value_set(prog, fn, n.value, depth + 1)
+                    if v is None:
+                        return None
+                    vals |= v
+                    found = True
+                elif any(isinstance(x, ast.Name) and x.id == name for x in ast.walk(t)):
+                    col = unpacked_table_values(fn, n, name)     # prefix, code = TABLE[kind]
+                    if col is None:
+                        return None
+                    vals |= col
+                    found = True
+        elif isinstance(n, (ast.AugAssign, ast.AnnAssign, ast.NamedExpr)) and any(
+                isinstance(x, ast.Name) and x.id == name for x in ast.walk(n.target)):
+            return None
+        elif isinstance(n, (ast.For, ast.comprehension)) and any(isinstance(x, ast.Name) and x.id == name for x in ast.walk(n.target)):
+            return None
+    return vals if found else None
+
+
+def unpacked_table_values(fn: Fn, assign: ast.Assign, name: str) -> Optional[Set[str]]:
+    """``a, name, c = TABLE[key]`` / ``TABLE.get(key)`` with TABLE a folded dict / sequence of equally long tuples: the strings
+    of the column *name* is unpacked from."""
+    if len(assign.targets) != 1 or not isinstance(assign.targets[0], (ast.Tuple, ast.List)):
+        return None
+    v = assign.value
+    table = None
+    if isinstance(v, ast.Subscript) and not isinstance(v.slice, ast.Slice):
+        table = fold_in_fn(v.value, fn, default=None)
+    elif isinstance(v, ast.Call) and isinstance(v.func, ast.Attribute) and v.func.attr == "get" and len(v.args) == 1:
+        table = fold_in_fn(v.func.value, fn, default=None)
+    rows = list(table.values()) if isinstance(table, dict) else list(table) if isinstance(table, (tuple, list)) else None
+    if not rows:
+        return None
+    out: Set[str] = set()
+    for row in rows:
+        got = _component(assign.targets[0], row, name)
+        if not isinstance(got, str):
+            return None
+        out.add(got)
+    return out
 
 
 def loop_bound_values(fn: Fn, name: str) -> Optional[Set[str]]:
